@@ -14,6 +14,13 @@ thread_local! {
     pub static CSERIAL: Cell<u64> = Cell::new(1);
     pub static BUDGET: Cell<u32> = Cell::new(0);
     pub static ARENA_NO: Cell<u64> = Cell::new(0);
+    /// values currently alive: event payloads, and components of the three types with destructors (K1, K3, K4)
+    pub static LIVE_E: Cell<i64> = Cell::new(0);
+    pub static LIVE_C: RefCell<[i64; 6]> = RefCell::new([0; 6]);
+}
+
+pub fn live_c(k: usize, d: i64) {
+    LIVE_C.with(|l| l.borrow_mut()[k] += d);
 }
 
 pub fn trace(s: String) {
@@ -79,6 +86,7 @@ pub struct K1 {
 }
 impl Drop for K1 {
     fn drop(&mut self) {
+        live_c(1, -1);
         CDROPS.with(|c| c.borrow_mut().push(format!("K1:s{}", self.ser)));
     }
 }
@@ -92,6 +100,7 @@ pub struct K2;
 pub struct K3;
 impl Drop for K3 {
     fn drop(&mut self) {
+        live_c(3, -1);
         CDROPS.with(|c| c.borrow_mut().push("K3".to_string()));
     }
 }
@@ -105,6 +114,7 @@ pub struct K4 {
 }
 impl Drop for K4 {
     fn drop(&mut self) {
+        live_c(4, -1);
         // the address must be aligned wherever the value lives
         if (self as *const K4 as usize) % 64 != 0 {
             CDROPS.with(|c| c.borrow_mut().push("K4:MISALIGNED".to_string()));
@@ -132,7 +142,7 @@ impl Comp for K0 {
 }
 impl Comp for K1 {
     const TY: usize = 1;
-    fn make(v: u64, ser: u64) -> Self { K1 { v, ser } }
+    fn make(v: u64, ser: u64) -> Self { live_c(1, 1); K1 { v, ser } }
     fn val(&self) -> u64 { self.v }
     fn bump(&mut self) { self.v += 1 }
 }
@@ -144,13 +154,13 @@ impl Comp for K2 {
 }
 impl Comp for K3 {
     const TY: usize = 3;
-    fn make(_: u64, _: u64) -> Self { K3 }
+    fn make(_: u64, _: u64) -> Self { live_c(3, 1); K3 }
     fn val(&self) -> u64 { 0 }
     fn bump(&mut self) {}
 }
 impl Comp for K4 {
     const TY: usize = 4;
-    fn make(v: u64, ser: u64) -> Self { K4 { v, ser } }
+    fn make(v: u64, ser: u64) -> Self { live_c(4, 1); K4 { v, ser } }
     fn val(&self) -> u64 { self.v }
     fn bump(&mut self) { self.v += 1 }
 }
@@ -169,8 +179,15 @@ pub struct Pay {
     pub serial: u64,
     pub ent: EntityId,
 }
+impl Pay {
+    pub fn new(serial: u64, ent: EntityId) -> Pay {
+        LIVE_E.with(|l| l.set(l.get() + 1));
+        Pay { serial, ent }
+    }
+}
 impl Drop for Pay {
     fn drop(&mut self) {
+        LIVE_E.with(|l| l.set(l.get() - 1));
         EDROPS.with(|e| e.borrow_mut().push(self.serial));
     }
 }
